@@ -30,6 +30,11 @@ def explore(ck):
             c.meta['T'] = T; k += 1
             expect[c.id] = list(range(s, min(e, T) + 1 if e is not None else T + 1))
             cases.append(c)
+    # start beyond the tip: outside the property's quantifier (s <= T); the model and the code must still agree (empty range, names carry s and s-1)
+    for T, s_, e_ in [(2, 3, None), (2, 5, 9), (0, 1, None)]:
+        coin = r.choice(gen.ALL_COINS); blocks = chain_for(r, coin, T + 1)
+        c = Case('beyond_T%d_s%d_e%s' % (T, s_, e_), coin).simple_layout(blocks); c.start = s_; c.end = e_; c.in_domain = False
+        c.meta['cbs'] = ['csv', 'unspent']; c.meta['T'] = T; expect[c.id] = []; cases.append(c)
     # high-height windows: index holds H-1..H+k, run with -s H
     for H in ([300, 16511, 2113663] if quick else [127, 128, 300, 16511, 16512, 2113663, 2113664, 13000000]):
         n = 4; coin = r.choice(gen.ALL_COINS)
@@ -64,6 +69,7 @@ def explore(ck):
         if res:
             for cb, diffs, rr in res:
                 if cb == 'csv' and not diffs:
+                    if not expect[c.id]: continue
                     name = 'blocks-%d-%d.csv' % (c.start, expect[c.id][-1])
                     hs = [int(l.split(';')[1]) for l in rr.files.get(name, b'').decode().split('\n') if l]
                     if hs != expect[c.id]: ck.disagreement('blocks.csv heights on ' + c.id, 'impl=%s expected=%s' % (hs, expect[c.id]), c)
